@@ -371,7 +371,7 @@ func Main(id, tier string, replayPath string) int {
 	}
 	sort.Strings(sigs)
 	exit := 0
-	var knownSeen []string
+	var knownSeen, unconfirmed []string
 	newViol := 0
 	os.MkdirAll(filepath.Join(VerifDir, "replays"), 0o755)
 	for _, s := range sigs {
@@ -379,6 +379,14 @@ func Main(id, tier string, replayPath string) int {
 		// re-execute 5x before believing it
 		ok, why := confirm(p, v, root)
 		if !ok {
+			if p.SamplingSigPrefix != "" && strings.HasPrefix(s, p.SamplingSigPrefix) {
+				// A report of the sampling complement (a free-running pass, not the deciding exhaustive
+				// step) that 5 further runs do not show again is not believed and not counted: it is
+				// noted in the evidence. The exhaustive exploration of the same scenario stands.
+				fmt.Printf("UNCONFIRMED-SAMPLE property=%s signature=%s (sampling complement; not reproduced in 5 re-executions; not counted)\n", id, s)
+				unconfirmed = append(unconfirmed, s)
+				continue
+			}
 			fmt.Printf("HARNESS-ERROR property=%s signature=%s not reproducible: %s\n", id, s, why)
 			exit = 2
 			continue
@@ -429,6 +437,7 @@ func Main(id, tier string, replayPath string) int {
 		"distinct_outcomes":             len(outcomes),
 		"outcomes":                      topOutcomes(outcomes, 40),
 		"known_findings_seen":           knownSeen,
+		"unconfirmed_sampling_reports":  unconfirmed,
 	}
 	if len(states) == 0 && stateExtra == 0 {
 		cov["states"] = caseCount
